@@ -2,6 +2,9 @@ use crate::policy::PolicyInner;
 use crate::sync::{select, spawn, stop_channel, JoinHandle, Receiver, Sender};
 use crate::{CacheError, MetricType, Metrics};
 use crossbeam_channel::{bounded, RecvError};
+#[cfg(transparencies_stretto_verif)]
+use crate::verif::locks::Mutex;
+#[cfg(not(transparencies_stretto_verif))]
 use parking_lot::Mutex;
 use std::collections::hash_map::RandomState;
 use std::hash::BuildHasher;
